@@ -367,7 +367,32 @@ def classify(aspects, rW, rR, newdirs, reports_w=(), reports_r=(), exists=lambda
         return "watch-new-directory-unreported"  # a directory that came back (moved away and back, re-created)
     if any(p.endswith("/") for p in del_r - del_w):
         return "watch-removed-directory-unreported"
+    if aspects == ["graph"] and order_only(rW, rR):
+        return "watch-differs:external-update-order"
     return "watch-differs:" + "+".join(aspects)
+
+
+def order_only(rW, rR) -> bool:
+    """Both phases are incomplete with the same status and the attached graphs differ only in steps that
+    are SUCCEEDED on one side and PENDING on the other (their outputs BUILT / OUTDATED): what the order
+    of two single-file EXTERNAL updates decides (a changed output does not make its consumers pending,
+    a changed input of its producer does)."""
+    if complete(rW.returncode) or complete(rR.returncode):
+        return False
+    a = {b.split("\n")[0]: b for b in attached_states(rW.graph_canon).split("\n\n")}
+    b = {c.split("\n")[0]: c for c in attached_states(rR.graph_canon).split("\n\n")}
+    if set(a) != set(b):
+        return False
+    for key in a:
+        if a[key] == b[key]:
+            continue
+        la = [ln for ln in a[key].split("\n") if "state =" not in ln]
+        lb = [ln for ln in b[key].split("\n") if "state =" not in ln]
+        sa = {ln.split("=")[1].strip() for ln in a[key].split("\n") if "state =" in ln}
+        sb = {ln.split("=")[1].strip() for ln in b[key].split("\n") if "state =" in ln}
+        if la != lb or (sa | sb) not in ({"SUCCEEDED", "PENDING"}, {"BUILT", "OUTDATED"}):
+            return False
+    return True
 
 
 def plain(edits):
@@ -621,8 +646,8 @@ class AppliedLog:
                                  "JOIN file ON file.node = node.i WHERE node.kind = 'file'").fetchall()
             return [row for row in rows if paths is None or row[0] in paths]
 
-        def get_file_hashes(wf, paths):
-            result = orig_get(wf, paths)
+        def get_file_hashes(wf, paths, **kwargs):
+            result = orig_get(wf, paths, **kwargs)
             import inspect
 
             caller = inspect.stack()[1].function
